@@ -492,7 +492,13 @@ fn anf<'a>(
         ),
         LiftExpr::EUnary { op, expr, ty: _ } => {
             let op_copy = op;
-            anf_imm(
+            // `-1u8` wraps; Go rejects a negative constant at an unsigned type
+            let operand_anf = if op == UnaryOp::Neg && is_unsigned_literal(&expr) {
+                anf_named
+            } else {
+                anf_imm
+            };
+            operand_anf(
                 anfenv,
                 gensym,
                 *expr,
@@ -677,6 +683,19 @@ fn is_numeric_literal(e: &LiftExpr) -> bool {
         e,
         LiftExpr::EPrim { value, .. }
             if !matches!(value, Prim::Unit { .. } | Prim::Bool { .. } | Prim::String { .. })
+    )
+}
+
+fn is_unsigned_literal(e: &LiftExpr) -> bool {
+    matches!(
+        e,
+        LiftExpr::EPrim {
+            value: Prim::UInt8 { .. }
+                | Prim::UInt16 { .. }
+                | Prim::UInt32 { .. }
+                | Prim::UInt64 { .. },
+            ..
+        }
     )
 }
 
